@@ -77,6 +77,8 @@ PROP = {
             "(snapshot save, journal DEL, ZREM, `del frontier` of the purge / the clean-up) fails in turn: a point still returned is the one "
             "selected without the fault, the next start does not resume before it, and when the numbering restarts (seq 0) a unit K committed "
             "afterwards without units 1..K-1 must not move the resume point (what a failed purge left is not combined with the new numbering). "
+            "OTHER DATABASES (seeded C14-r8-m1 = D21 through another door): every c14s / c14p / loop-harness target is a stand-alone double that also holds application keys in DB 2 and in DB 1 or 3 (INFO keyspace lists them; GetCheckpoint visits them in Go's random map order and leaves the connection there; "
+            "the C17 harness keeps the plain namespace); every c14s case repeats the fresh start 6 times on the same untouched state: answers must be identical (restart-moves-resume-point-no-traffic, model-free), besides the prefix / fault / loop monitors which then see about every second start read the wrong database. "
             "c14k: cluster-typed starts (2-3 slot tags, 16384-tag scan; sync: one latest record per tag): explicit oracle for the selected point, "
             "every write a crash point and a fault point, order-insensitive monitors only. "
             "c14c: real bisyncFrontierCoordinator under testing/synctest virtual time: 1-14 units reported in a random permutation "
